@@ -260,7 +260,8 @@ def check_child(scn, meta, seed):
 def token_case(rng, seed):
     flavour = rng.choice(["rpc", "rpc", "sfn"])
     stream = rng.choice(["valid", "valid", "duplicate", "late", "forged", "truncated", "failure", "reply-then-callback",
-                         "error-reply", "other-token", "failure-no-cause", "failure-no-error", "failure-typed-wrong"])
+                         "error-reply", "other-token", "failure-no-cause", "failure-no-error", "failure-typed-wrong",
+                         "duplicate-then-late-error-reply"])
     policy = rng.choice(["canonical", "shuffle", "latency-small"])
     cfg = E.policy_cfg(policy)
     cfg["execution_ttl"] = 600
@@ -287,6 +288,15 @@ def token_case(rng, seed):
                                                             7, None, True, {}, []])}, "delay": 0.5}]
     if stream == "error-reply" and flavour == "rpc":
         reply = [{"err": "E.Worker", "msg": "worker said no", "delay": 0.5}]
+    if stream == "duplicate-then-late-error-reply":
+        flavour = "rpc"
+        task = {"Type": "Task", "Resource": "arn:aws:states:local::rpcmessage:invoke.waitForTaskToken",
+                "Parameters": {"FunctionName": F + "cb", "Payload": {"token.$": "$$.Task.Token", "k.$": "$.k"}},
+                "ResultPath": "$.cb", "TimeoutSeconds": 8, "Next": "Z"}
+        d = {"StartAt": "T", "States": {"T": task, "Z": {"Type": "Pass", "End": True}}}
+        # the task is completed by its token at t=3; a duplicate callback (t=4) and then the worker's own late error
+        # reply (about t=4.5-6) both find no pending request: two orphaned responses under one correlation id
+        reply = [{"err": "E.Worker", "msg": "too late to matter", "delay": rng.choice([4.5, 5.0, 6.0])}]
     script = {"cb": reply}
     scn = {"machines": {"tok": {"definition": d, "type": "STANDARD"}, "tokchild": {"definition": tokchild, "type": "STANDARD"}},
            "executions": [{"machine": "tok", "input": {"k": 3}, "name": "t1"},
@@ -326,9 +336,9 @@ def check_token(scn, meta, seed):
         t0 = sim.now
         first = lambda t: t.get(3)
         second = lambda t: t.get(4)
-        if stream in ("valid", "duplicate", "reply-then-callback", "other-token"):
+        if stream in ("valid", "duplicate", "reply-then-callback", "other-token", "duplicate-then-late-error-reply"):
             sim.call_at(t0 + 3.0, send("SendTaskSuccess", first, {"output": ok_out}, "valid"), None, kind="client", label="cb")
-        if stream == "duplicate":
+        if stream in ("duplicate", "duplicate-then-late-error-reply"):
             sim.call_at(t0 + 4.0, send("SendTaskSuccess", first, {"output": json.dumps({"answer": "again"})}, "duplicate"),
                         None, kind="client", label="cb2")
         if stream == "late":
@@ -370,7 +380,11 @@ def check_token(scn, meta, seed):
     d2, t2 = term("t2")
     t0 = [c for c in w.api.calls if c["action"] == "StartExecution"][0]["t0"]
     # the untouched second execution completes exactly through its own token
-    if stream == "error-reply" and meta["flavour"] == "rpc":
+    if stream == "duplicate-then-late-error-reply":
+        # (the worker's error reply for the second task arrives around its callback: either may win)
+        if d2 is None or (d2["status"], d2.get("error")) not in (("SUCCEEDED", None), ("FAILED", "E.Worker")):
+            add(findings, "token-affected-other-task", "second task ended %r" % (d2 and (d2["status"], d2.get("error")),), witness=stream)
+    elif stream == "error-reply" and meta["flavour"] == "rpc":
         # the scripted worker answers every request with an error, so the second task fails by its own reply
         if d2 is None or d2["status"] != "FAILED" or d2.get("error") != "E.Worker":
             add(findings, "error-reply", "second task: %r" % (d2 and (d2["status"], d2.get("error")),), witness=stream)
@@ -384,7 +398,7 @@ def check_token(scn, meta, seed):
         add(findings, "never-terminal", "first execution never ended (%s)" % stream, witness=stream)
         return res, findings
     out1 = jl(d1["output"]) if d1.get("output") else None
-    if stream in ("valid", "duplicate", "reply-then-callback", "other-token"):
+    if stream in ("valid", "duplicate", "reply-then-callback", "other-token", "duplicate-then-late-error-reply"):
         if d1["status"] != "SUCCEEDED" or out1.get("cb") != {"answer": 42}:
             add(findings, "callback-result", "valid token with output {'answer': 42}: execution ended %s %r %r" % (
                 d1["status"], d1.get("output"), d1.get("error")), witness=stream)
